@@ -21,6 +21,30 @@ def hx(bs):
 LETTERS = [0x61, 0x62, 0x41, 0x5a, 0x7a, 0x20, 0x09, 0x0a, 0x31, 0x39, 0x30, 0x78, 0x2d, 0x2b, 0x80, 0xff, 0x66, 0x46]
 WS = [0x20, 0x09, 0x0a, 0x0d, 0x0b, 0x0c]
 BUFF_INC = 4096
+# high-bit twins (c | 0x80) of the characters the methods treat specially: whitespace (trim), letters at both ends of
+# both case ranges and their neighbours (upcase/downcase/casecmp), digits and sign (to_num): a table indexed with
+# c & 0x7f, an isascii() shortcut or a signed-char comparison confuses exactly these with their ASCII partners
+WS_TWINS = [c | 0x80 for c in WS]
+CASE_EDGES = [0x40, 0x41, 0x5a, 0x5b, 0x60, 0x61, 0x7a, 0x7b]
+CASE_TWINS = [c | 0x80 for c in CASE_EDGES]
+TWINS = WS_TWINS + CASE_TWINS + [0xb0, 0xb9, 0xad, 0xab]
+KMAX = 14
+# NUL-free pattern of 7 bytes (a period that no power of two is a multiple of): A b space z c 0x80 0xe1
+PAT = '4162207a6380e1'
+PAT2 = '7a41e1206280'
+
+
+def pow2_lengths(kmax=KMAX):
+    """0 and every 2^k - 1, 2^k, 2^k + 1 for k <= kmax"""
+    s = set()
+    for k in range(kmax + 1):
+        s.update([2 ** k - 1, 2 ** k, 2 ** k + 1])
+    return sorted(s)
+
+
+def rep(pat, n):
+    """pattern token of exactly n bytes ("-" for none)"""
+    return '%s*%d' % (pat, n) if n > 0 else '-'
 
 def isspace(c):
     return c == 32 or 9 <= c <= 13
@@ -81,7 +105,11 @@ class Gen:
         r = self.rng
         n = r.choice([0, 1, 1, 2, 3, 3, 5, maxlen])
         k = r.random()
-        if k < 0.15:
+        if r.random() < 0.12:
+            # the special characters next to their high-bit twins
+            pool = WS + WS_TWINS + CASE_EDGES + CASE_TWINS
+            body = [r.choice(pool) for _ in range(n + 1)]
+        elif k < 0.15:
             body = [r.choice(WS) for _ in range(n)]
         elif k < 0.35:
             body = [r.choice(WS) for _ in range(r.choice([0, 1, 2]))] + \
@@ -106,6 +134,8 @@ class Gen:
 
     def byte(self):
         r = self.rng
+        if r.random() < 0.1:
+            return r.choice(TWINS)
         return r.choice(LETTERS + [0x6c, 0x01, 0x7f, 0xfe])
 
     # ---- constructors ----
@@ -303,6 +333,8 @@ class Gen:
             if m < 0.3 and t:
                 j = r.randrange(len(t))
                 t[j] = (t[j] ^ 0x20) if 0x41 <= (t[j] & 0xdf) <= 0x5a else r.choice(LETTERS)
+                if r.random() < 0.2:
+                    t[j] = (t[j] ^ 0x80) or 0x41
             elif m < 0.5:
                 t = t[:r.randrange(len(t) + 1)]
             elif m < 0.6:
@@ -316,10 +348,16 @@ class Gen:
             if n and r.random() < 0.6:
                 a = r.randrange(n)
                 b = min(n, a + r.choice([1, 1, 2, 3]))
-                return 'findp,' + hx(sim.t[a:b][:30])
+                nd = sim.t[a:b][:30]
+                if r.random() < 0.15:
+                    j = r.randrange(len(nd))
+                    nd = nd[:j] + [(nd[j] ^ 0x80) or 0x41] + nd[j + 1:]
+                return 'findp,' + hx(nd)
             return 'findp,' + self.text_tok()
         if k in ('idx', 'ridx'):
             c = r.choice(sim.t) if (sim.t and r.random() < 0.6) else self.byte()
+            if sim.t and r.random() < 0.15:
+                c = r.choice(sim.t) ^ 0x80          # the twin of a character of the text
             if r.random() < 0.03:
                 c = 0
             return '%s,%d' % (k, c)
@@ -369,6 +407,138 @@ class Gen:
         return ' '.join(toks)
 
 
+
+def boundary_histories(rng, tier):
+    """every length-driven operation at 2^k - 1, 2^k, 2^k + 1 for k <= 14: sprintf output, append / prepend / splice
+    texts (pointer and object form), constructor texts and init_from_buff sizes, stream lines and read chunks,
+    substring counts, comparison / search / case / clear / trim lengths.  Long texts sit in short histories (the
+    extracted list model needs 20-90 ms per step on 16 KB; reverse is quadratic and stops at 1025 / 4097)."""
+    hist = []
+    revmax = 1025 if tier == 'quick' else 4097
+    for L in pow2_lengths():
+        P, P2 = rep(PAT, L), rep(PAT2, L)
+        full = expand(P) if L else []
+        # ---- sprintf: first use, later use, a format with a number in front (output exactly L)
+        if L >= 1:
+            hist.append('init spf,s,%s glen idx,0' % P)
+            hist.append('ptr,616263 spf,s,%s glen spf,s,%s glen spf,s,41 spf,s,%s glen' % (P, P2, P))
+            hist.append('buff,%s,%d spf,s,%s appc,33 glen' % (P, L, P2))
+        if L >= 4:
+            hist.append('init spf,d,7,%s glen' % rep(PAT, L - 3))
+        if L >= 14:
+            hist.append('ptr,6162 spf,d,-2147483648,%s glen' % rep(PAT2, L - 13))
+        # ---- append: pointer, object and character form; the added text or the total on the boundary
+        hist.append('init appp,%s glen appc,33 glen' % P)
+        hist.append('ptr,6162 appp,%s glen appp,%s glen' % (P, hx([0x7a])))
+        hist.append('ptr,6162 on,ptr,%s app glen app glen' % P)
+        hist.append('init on,buff,%s,%d app glen appc,33' % (P, L))
+        hist.append('ptr,%s appc,33 glen appp,7a7a glen' % P)
+        hist.append('buff,%s,%d appc,33 glen' % (P, L))
+        hist.append('ptr,%s odup app glen' % P)
+        if L >= 3:
+            hist.append('ptr,%s appp,%s glen' % (rep(PAT, 3), rep(PAT2, L - 3)))
+            hist.append('ptr,%s appc,33 glen appc,34 glen' % rep(PAT, L - 1))
+        # ---- prepend
+        hist.append('init prep,%s glen prec,33 glen' % P)
+        hist.append('ptr,6162 prep,%s glen prep,7a glen' % P)
+        hist.append('ptr,6162 on,ptr,%s pre glen pre glen' % P)
+        hist.append('ptr,%s prec,33 glen prep,7a7a glen' % P)
+        if L >= 3:
+            hist.append('ptr,%s prep,%s glen' % (rep(PAT, 3), rep(PAT2, L - 3)))
+        # ---- splice: insert L, remove L, replace L by L, result of length L
+        hist.append('ptr,616263 splp,1,1,%s glen splp,1,%d,N glen' % (P, L))
+        hist.append('ptr,616263 on,ptr,%s spl,-1,0 glen spl,2,%d glen' % (P, L))
+        hist.append('ptr,%s splp,1,%d,5a glen' % (rep(PAT, L + 2), L))
+        hist.append('ptr,%s splp,1,-1,%s glen' % (rep(PAT, L + 2), P2))
+        hist.append('ptr,%s on,ptr,%s spl,1,%d glen' % (rep(PAT, L + 2), P2, L))
+        if L >= 2:
+            hist.append('ptr,%s splp,1,1,7a glen splp,0,1,- glen' % P)
+        # ---- constructors: text length, init_from_buff size below / at / above the text, with and without terminator
+        hist.append('ptr,%s glen odup swap appc,33 glen' % P)
+        hist.append('buff,%s,%d glen gsize appc,33' % (P, L))
+        if L >= 1:
+            hist.append('buff,%s,%d glen gsize appc,33' % (P, L - 1))
+            hist.append('buff,%s,%d glen gsize appc,33' % (rep(PAT, L + 5), L))
+        cells = hx(full + [0])
+        hist.append('buff,%s,%d glen gsize appc,33' % (cells, L + 1))
+        hist.append('buff,%s????,%d glen gsize appc,33' % (cells, L + 3))
+        if L >= 2:
+            # terminator inside: the size argument on the boundary, the text shorter
+            hist.append('buff,%s,%d glen gsize' % (hx(full[:L // 2] + [0] + full[L // 2 + 1:]), L))
+        hist.append('buff,N,%d glen gsize appc,33' % L)
+        # ---- stream lines: a line of L bytes then newline and more; L bytes counting the newline; no newline at all
+        for c in ('fp', 'fpp'):
+            hist.append('%s,%s glen appc,33' % (c, P))
+            hist.append('%s,%s glen appc,33' % (c, hx(full + [0x0a, 0x62, 0x63])))
+            if L >= 1:
+                hist.append('%s,%s glen' % (c, hx(full[:L - 1] + [0x0a])))
+                hist.append('%s,%s glen' % (c, hx([0x0a] + full)))
+        # ---- read chunks: one chunk of L, chunks of L in a row, the total on the boundary in uneven pieces
+        hist.append('fdp,%s glen appc,33' % P)
+        hist.append('fd,d%s glen appc,33' % P if L else 'fd,- glen appc,33')
+        if L >= 1:
+            hist.append('fd,d%s:d%s:i:d%s:e glen' % (P, P2, P))
+            hist.append('fd,d%s:d%s:x glen' % (hx([0x7a]), P))
+            hist.append('fd,d%s:a:d%s glen' % (P, P2))
+        if L >= 2:
+            cut = rng.randrange(1, L)
+            hist.append('fd,d%s:i:d%s glen' % (rep(PAT, cut), rep(PAT2, L - cut)))
+        # ---- substrings of L characters
+        if L >= 1:
+            hist.append('ptr,%s subp,1,%d osub,1,%d swap glen' % (rep(PAT, L + 2), L, L))
+            hist.append('ptr,%s subp,0,%d osub,-%d,0 swap glen subp,0,%d' % (P, L, L, L + 1))
+        # ---- comparisons and searches over L characters
+        d = list(full)
+        if d:
+            d[-1] = 0x42 if d[-1] != 0x42 else 0x43
+        hist.append('ptr,%s odup cmp,p cmp,c cmp,n,%d cmp,nc,%d find' % (P, L, L))
+        hist.append('ptr,%s cmpp,p,%s cmpp,c,%s cmpp,n,%d,%s cmpp,nc,%d,%s cmpp,n,%d,%s'
+                    % (P, hx(d), hx(d), L, hx(d), L, hx(d), max(L - 1, 0), hx(d)))
+        hist.append('ptr,%s findp,%s findp,%s findp,%s idx,90 ridx,65 idx,0' % (P, hx(full[-3:] or [0x41]), hx(full[-3:] + [0x7a]), P))
+        # ---- in-place edits at that length
+        core = ([0x41] + full[1:-1] + [0x5a]) if L >= 2 else [0x41] * L
+        hist.append('ptr,%s trim glen trim glen' % hx([0x20, 0x0a] + core + [0x09, 0x20]))
+        hist.append('ptr,%s trim glen' % hx(core + [0x20]))
+        hist.append('ptr,%s up glen down glen clr,120 glen' % P)
+        if L <= revmax:
+            hist.append('ptr,%s rev glen idx,65 ridx,65' % P)
+    return hist
+
+
+def twin_histories():
+    """high-bit twins of every special character as trim / case / index / find / compare arguments, and every one
+    of the 255 non-NUL byte values through the character-level methods"""
+    hist = []
+    pairs = [(c, c | 0x80) for c in WS + CASE_EDGES + [0x30, 0x39, 0x2d, 0x2b, 0x78]]
+    for c, tw in pairs:
+        for a, b in ((c, tw), (tw, c)):
+            t = [a, 0x61, b, 0x5a, a, b]
+            # trim must only strip whitespace (not its twin); the case methods only touch ASCII letters
+            hist.append('ptr,%s trim glen up down rev trim glen' % hx(t))
+            hist.append('ptr,%s trim glen' % hx([a, a, 0x61, b, b]))
+            hist.append('ptr,%s trim glen' % hx([b, a, b]))
+            hist.append('ptr,%s up glen down glen' % hx(t))
+            # index / rindex / find: the twin is absent where only the partner occurs, and found where it occurs
+            hist.append('ptr,%s idx,%d ridx,%d idx,%d ridx,%d' % (hx([0x62, a, 0x63, a]), a, a, b, b))
+            hist.append('ptr,%s findp,%s findp,%s findp,%s' % (hx([0x62, a, 0x63, b, 0x64]), hx([b]), hx([a, 0x63]), hx([b, 0x63])))
+            hist.append('ptr,%s on,ptr,%s find swap find' % (hx([0x62, a, 0x63, b, 0x64]), hx([0x63, b])))
+            # comparisons: a character and its twin are different under every comparison, and ordered as unsigned bytes
+            for k in ('p', 'c', 'n,3', 'nc,3', 'n,1', 'nc,2'):
+                hist.append('ptr,%s cmpp,%s,%s cmpp,%s,%s' % (hx([0x61, a, 0x62]), k, hx([0x61, b, 0x62]), k, hx([0x61, a, 0x62])))
+            hist.append('ptr,%s on,ptr,%s cmp,p cmp,c cmp,n,2 cmp,nc,2 swap cmp,p cmp,c' % (hx([0x61, a]), hx([0x61, b])))
+            # character-form editing with the twin; clear
+            hist.append('ptr,%s appc,%d prec,%d glen clr,%d idx,%d ridx,%d' % (hx([a]), b, b, b, a, b))
+            # numbers: a twin of a digit / sign / space is not part of the number
+            hist.append('ptr,%s tonum,10 tonum,16 tonum,0 flt' % hx([a, 0x31, 0x32, b, 0x33]))
+            hist.append('ptr,%s tonum,10 tonum,16' % hx([0x31, b, 0x32]))
+    for c in range(1, 256):
+        t = [0x20, c, 0x61, c, 0x20]
+        hist.append('ptr,%s idx,%d ridx,%d idx,%d ridx,%d findp,%s findp,%s up down trim glen'
+                    % (hx(t), c, c, c ^ 0x80, c ^ 0x80, hx([c, 0x61]), hx([(c ^ 0x80) or 0x41, 0x61]), ))
+        hist.append('ptr,%s trim glen cmpp,c,%s cmpp,p,%s' % (hx([c, 0x62, c]), hx([c ^ 0x20 or 0x41, 0x62, c]), hx([(c ^ 0x80) or 0x41, 0x62, c])))
+        hist.append('init appc,%d prec,%d clr,%d glen' % (c, c, c))
+    return hist
+
 def every_op(n, others):
     """all single operations with every index / count in -n-2..n+2 (enumerated stratum)"""
     rng = list(range(-n - 2, n + 3))
@@ -398,7 +568,11 @@ class C01(vlib.PropertyCheck):
                        'operation after the constructor returned TRUE; distinct = distinct case lines. Strata: every single '
                        'operation with every index/count in -len-2..len+2 after every way of building each of six short texts '
                        '(including all ways of being empty), every read schedule up to 3 (quick) / 4 (thorough) events over a '
-                       '7-letter event alphabet, stream texts of 0,1,4094..4097,8191,8192,12293 bytes, random histories of '
+                       '7-letter event alphabet, stream texts of 0,1,4094..4097,8191,8192,12293 bytes, every length-driven operation '
+                       '(sprintf output, append/prepend/splice text, constructor text and init_from_buff size, stream line, read chunk, '
+                       'substring count, compare/find/case/clear/trim length) at 0 and 2^k-1, 2^k, 2^k+1 for every k <= 14, the high-bit '
+                       'twin (c|0x80) of every whitespace character, case-range edge, digit and sign as trim/case/index/find/compare/'
+                       'to_num argument, every byte value 1..255 through the character-level methods, random histories of '
                        '1-40 operations; each history is run through spif_str_* and spif_ustr_*')
     assumptions = ['texts, stream contents and delivered chunks contain no NUL byte; characters given to append_char / '
                    'prepend_char / clear are not NUL',
@@ -504,6 +678,10 @@ class C01(vlib.PropertyCheck):
             body = [0x61 + (i % 7) for i in range(n)]
             hist.append('fp,%s glen appc,33' % hx(body + [0x0a] + [0x62] * 3))
             hist.append('fpp,%s glen' % hx(body + [0x0a]))
+        # 2b. powers of two and their neighbours as the length of every length-driven operation
+        hist += boundary_histories(rng, tier)
+        # 2c. high-bit twins of the special characters, every byte value
+        hist += twin_histories()
         # 3. random histories
         nrand = 700 if tier == 'quick' else 110000
         for i in range(nrand):
@@ -526,36 +704,42 @@ _seq_run_model = vlib.run_model
 def _par_run_model(exe, cases_path, ncases, timeout=600):
     import os, subprocess
     jobs = min(max(1, (os.cpu_count() or 2) - 2), 12)
-    if ncases < 20000 or jobs < 2 or not os.path.basename(exe).startswith('c01_'):
+    if ncases < 4000 or jobs < 2 or not os.path.basename(exe).startswith('c01_'):
         return _seq_run_model(exe, cases_path, ncases, timeout=timeout)
     with open(cases_path) as f:
         lines = f.readlines()
-    per = (len(lines) + jobs - 1) // jobs
+    # striped, not sliced: the expensive histories (multi-kilobyte texts) sit next to each other in the file
     procs = []
     for j in range(jobs):
-        part = lines[j * per:(j + 1) * per]
+        part = lines[j::jobs]
         if not part:
             break
         pp = '%s.part%d' % (cases_path, j)
         with open(pp, 'w') as f:
             f.writelines(part)
-        procs.append((j * per, pp, subprocess.Popen([exe, pp], stdout=subprocess.PIPE, stderr=subprocess.PIPE,
-                                                     env=dict(os.environ, OCAMLRUNPARAM='l=512M'))))
+        # output to a file: with pipes every worker but the one being read stalls once 64 KB are pending
+        of = open(pp + '.out', 'wb')
+        procs.append((j, pp, subprocess.Popen([exe, pp], stdout=of, stderr=subprocess.PIPE,
+                                               env=dict(os.environ, OCAMLRUNPARAM='l=512M'))))
+        of.close()
     results = [None] * ncases
     rc_all, err_all = 0, ''
     for off, pp, pr in procs:
         try:
-            o, e = pr.communicate(timeout=timeout)
+            _, e = pr.communicate(timeout=timeout)
         except subprocess.TimeoutExpired:
             pr.kill()
-            o, e = pr.communicate()
+            _, e = pr.communicate()
             rc_all, err_all = -9, err_all + '[timeout]'
         rc_all = rc_all or pr.returncode
         err_all += e.decode(errors='replace')[-500:]
+        with open(pp + '.out', 'rb') as f:
+            o = f.read()
+        os.unlink(pp + '.out')
         for line in o.decode(errors='replace').split('\n'):
             if line.startswith('#'):
                 sp = line.find(' ')
-                k = off + int(line[1:sp])
+                k = off + int(line[1:sp]) * jobs
                 if k < ncases:
                     results[k] = line[sp + 1:]
         os.unlink(pp)
